@@ -53,13 +53,17 @@ def proof_phase(chk, mod, lean_ok, ltxt):
         for t, txt in broken:
             errs = "\n".join(ln for ln in txt.splitlines() if "error" in ln.lower())[:3000]
             chk.obligation("lean-module:" + t, False, errs)
-        if broken:
+        bad = {t for t, _ in broken}
+        good = [t for t in [module] + list(getattr(mod, "LEAN_TARGETS", [])) if t not in bad]
+        if not good:
             for th in theorems:
                 chk.obligation(th, False, "module does not build")
             return
+        mod = type("M", (), {"LEAN_TARGETS": good, "MODULE": good[0]})
+        module = good[0]
     t = time.time()
     with Lock():
-        res, out = common.audit(module, theorems)
+        res, out = common.audit([module] + [t for t in getattr(mod, 'LEAN_TARGETS', []) if t != module], theorems)
     chk.cov["audit_s"] = round(time.time() - t, 1)
     axioms_seen = set()
     for th in theorems:
